@@ -54,13 +54,18 @@ class PandasCheckBackend(BaseCheckBackend):
         """
         # NOTE: this behavior should be deprecated such that the user deals with
         # pandas groupby objects instead of dicts.
+        def _group_key(k):
+            # pandas keys the groups of a list-like grouper with tuples;
+            # single-column tuples are unwrapped, scalar keys are kept
+            return k[0] if isinstance(k, tuple) and len(k) == 1 else k
+
         if groups is None:
             return {  # type: ignore[return-value]
-                (k if isinstance(k, bool) else k[0] if len(k) == 1 else k): v
+                _group_key(k): v
                 for k, v in groupby_obj  # type: ignore[union-attr]
             }
         group_keys = {
-            k[0] if len(k) == 1 else k for k, _ in groupby_obj  # type: ignore[union-attr]
+            _group_key(k) for k, _ in groupby_obj  # type: ignore[union-attr]
         }
         invalid_groups = [g for g in groups if g not in group_keys]
         if invalid_groups:
